@@ -245,6 +245,8 @@ def owners(div):
     obs = div.get("obs") if isinstance(div.get("obs"), dict) else {}
     if kind == "threads":
         return {"C20"}
+    if kind == "optprod":
+        return {"C13"}
     if kind == "rejected":
         return set(FREE_OWNERS.get(fn, {"C14"})) | {"C14"}
     if kind == "crash" and fn == "wincmd":
@@ -362,6 +364,8 @@ def signature(prop, div):
     args = {k: v for k, v in call.items() if k not in ("e", "fn", "h")}
     obs = div.get("obs") if isinstance(div.get("obs"), dict) else {}
     keys = div.get("keys") or [div.get("key")]
+    if div.get("kind") == "optprod":
+        return "%s start kind=optprod expect=%s got r=%s created=%s options=%s" % (prop, obs.get("expect"), obs.get("r"), obs.get("created"), json.dumps(args, sort_keys=True, separators=(",", ":")))
     if div.get("kind") == "rejected":
         return "%s %s kind=rejected-by-CoreTrace args=%s at=%s" % (prop, fn, json.dumps(args, sort_keys=True, separators=(",", ":"))[:200],
                                                                   json.dumps(obs.get("rejected_line"), sort_keys=True, separators=(",", ":"))[:300])
@@ -896,6 +900,45 @@ def fam_wrapper(tier, outdir):
     return run_tlc_export("wrapper", "Wrapper", cfg, outdir, tier, asan_stride=1, tlc_workers=8, exes=(vlib.build_cxx("plain"), exe))
 
 
+def fam_optprod(tier, outdir):
+    """C13 (b): every option record of the full product (3 streams x 72 redirect values, 16 shorthand combinations, input
+    forms, fork/argv forms: 95.6 million) judged against the per-stream verdict table exported by TLC from Launch.tla."""
+    t0 = time.time()
+    cfg = os.path.join(outdir, "tables.cfg")
+    write_cfg(cfg, "Spec", {"Family": '"tables"', "StdMode": '"open"'}, ["VerdictSane"], view=None, action_constraint=None)
+    meta = os.path.join(outdir, "m")
+    r = subprocess.run(["java", "-cp", vlib.TLA_CP, "tlc2.TLC", "-workers", "4", "-metadir", meta, "-config", cfg, os.path.join(SPEC, "MC_Launch.tla")],
+                       capture_output=True, cwd=SPEC)
+    shutil.rmtree(meta, ignore_errors=True)
+    rows = [unescape_beh(l + b"\n") for l in r.stdout.splitlines() if l.startswith(b'<<"BEH"')]
+    st = parse_tlc_stats(r.stdout.decode("utf8", "replace"))
+    if len(rows) != 3456:
+        raise Infra("verdict table incomplete: %d rows\n%s" % (len(rows), r.stdout.decode()[-1000:]))
+    table = os.path.join(outdir, "table.txt")
+    open(table, "w").write("\n".join(" ".join(str(x) for x in row[1:]) for row in rows) + "\n")
+    exe = vlib.build_driver("plain")
+    stride = 11 if tier == "quick" else 1
+    ns = 16
+    procs = [subprocess.Popen([exe, "--optsweep", table, str(i), str(ns), str(stride), str(SEED % stride)], stdout=subprocess.PIPE, text=True) for i in range(ns)]
+    bad, records, judged = [], 0, 0
+    for p in procs:
+        out, _ = p.communicate()
+        if p.returncode != 0:
+            raise Infra("optsweep failed")
+        for ln in out.splitlines():
+            v = json.loads(ln)
+            if v.get("ok") == 1:
+                records += v["records"]; judged += v["judged"]
+            else:
+                v["call"] = {"fn": "start", "rd": v.get("rd"), "sh": v.get("sh"), "input": v.get("input"), "fork": v.get("fork"), "argvnull": v.get("argvnull")}
+                v["obs"] = {"r": v.get("r"), "created": v.get("created"), "expect": v.get("expect")}
+                v["script"] = v["call"]
+                bad.append(v)
+    return {"family": "optprod", "tlc": st, "scripts": judged, "replayed": judged, "ok": judged - len(bad), "bad": bad,
+            "samples": [{"table_rows": rows[:3], "records_enumerated": records, "records_judged": judged, "stride": stride}],
+            "wall_tlc": time.time() - t0, "asan_replayed": 0, "replay_stride": stride}
+
+
 def fam_destroy(tier, outdir):
     consts = {"Handles": "{1}", "MaxTime": 5, "MaxCalls": 4, "PipeCap": 4, "MaxOut": 0, "ExitCodes": "{3}", "TermDelay": 1,
               "DlOpts": "{0, 2}", "Timeouts": "{0, 2}", "ThirdActs": '"Small"', "StrictFailedStart <- Loose": None}
@@ -955,7 +998,7 @@ def run_tlc_plain(name, module, cfgpath, outdir, timeout=1500, workers=8):
     return st
 
 
-FAMILIES = {"free": fam_free, "env2": lambda t, o: fam_launch("env2", t, o), "two": fam_two, "restart": fam_restart, "threads": fam_threads, "conc": fam_conc, "wincmd": fam_wincmd, "wrapper": fam_wrapper, "faults": fam_faults, "env": lambda t, o: fam_launch("env", t, o), "wiring": lambda t, o: fam_launch("wiring", t, o), "options": lambda t, o: fam_launch("options", t, o),
+FAMILIES = {"optprod": fam_optprod, "free": fam_free, "env2": lambda t, o: fam_launch("env2", t, o), "two": fam_two, "restart": fam_restart, "threads": fam_threads, "conc": fam_conc, "wincmd": fam_wincmd, "wrapper": fam_wrapper, "faults": fam_faults, "env": lambda t, o: fam_launch("env", t, o), "wiring": lambda t, o: fam_launch("wiring", t, o), "options": lambda t, o: fam_launch("options", t, o),
             "destroy": fam_destroy, "status": fam_status, "run": fam_run, "stop": fam_stop, "life": fam_life, "poll": fam_poll, "stream": fam_stream, "drain": fam_drain}
 
 PROPS = {
@@ -966,7 +1009,7 @@ PROPS = {
     "C12": {"families": ["env", "env2", "faults"], "title": "start leaves the caller untouched and gives the child a clean signal state"},
     "C10": {"families": ["wiring"], "title": "each standard stream is connected exactly where the options say"},
     "C11": {"families": ["wiring", "env2"], "title": "nothing else is inherited"},
-    "C13": {"families": ["options"], "title": "options rejected up front, accepted as documented"},
+    "C13": {"families": ["options", "optprod"], "title": "options rejected up front, accepted as documented"},
     "C04": {"families": ["faults", "env", "wiring", "restart"], "title": "start is all-or-nothing and reports the real cause"},
     "C05": {"families": ["faults", "wiring", "life"], "title": "no leak, no foreign or double close"},
     "C18": {"families": ["wincmd"], "title": "Windows command line and environment block",
@@ -1060,7 +1103,7 @@ def conclude(prop, tier, results, known, outdir, t0):
                        "script": d.get("script")}, f)
         if n < 25:
             # report only what an immediate re-run repeats (guards against the environment, DESIGN 5.8)
-            if d.get("script") is not None and d.get("kind") not in ("contract", "threads", "rejected") and d.get("fn") != "wincmd" and replay(path, quiet=True) == 0:
+            if d.get("script") is not None and d.get("kind") not in ("contract", "threads", "rejected", "optprod") and d.get("fn") != "wincmd" and replay(path, quiet=True) == 0:
                 continue
             if d.get("kind") == "contract" and d.get("fn") != "wincmd" and n < 6 and not recheck_contract(d, os.path.join(OUT, prop, "recheck")):
                 continue
